@@ -607,7 +607,7 @@ def h7(ctx, rid):
             # every other use of the source path in this body
             body = f
             arg_locals = set()
-            for o in src_o:
+            for o in core.origins_ip(prog, f, c.args[0], depth=0):      # the parameters of this body the source path comes from
                 if o.kind == 'arg':
                     arg_locals.add(o.data)
             badu = []
